@@ -8,7 +8,7 @@ for spec in "$@"; do
   rsync -a --exclude .git --exclude '__pycache__' /repo/ "$d/"
   (cd "$d" && patch -s -p1 < /verif/seeded/harmless/$h.diff) || { echo "$h: patch does not apply"; rm -rf "$d"; continue; }
   for p in $props; do
-    out=$(cd /verif && VERIF_REPO="$d" bin/check $p --tier quick 2>&1)
+    out=$(cd /verif && VERIF_REPO="$d" VERIF_EVIDENCE_DIR="$d/.evidence" bin/check $p --tier quick 2>&1)
     rc=$?
     nv=$(echo "$out" | grep -c '^VIOLATION')
     und=$(echo "$out" | grep -o 'undecided=[0-9]*' | head -1)
